@@ -37,7 +37,7 @@ var profiles = map[string]*Profile{
 	"C01": {Name: "C01", MaxConns: 6, MaxSess: 3, Len: 90, W: withW(map[string]int{"subscribe": 8, "comp_list": 5, "comp_update": 8, "unknown": 0, "undecodable": 0, "receipt": 0, "latency": 0, "ping_resp": 0}), StepPct: 80, SnapPct: 30},
 	"C02": {Name: "C02", MaxConns: 6, MaxSess: 2, Len: 90, StepPct: 85, SnapPct: 3,
 		W: map[string]int{"connect": 5, "disconnect": 5, "join": 16, "entity_add": 12, "entity_delete": 7, "pose": 26, "tick": 14, "step": 4, "custom": 8, "action": 8, "asset": 6, "comp_add": 2, "type_add": 1}},
-	"C03": {Name: "C03", MaxConns: 6, MaxSess: 3, Len: 120, W: withW(map[string]int{"join": 20, "disconnect": 5, "latency": 0, "ping_resp": 0, "receipt": 0, "action": 10, "asset": 8, "entity_add": 12, "pose": 4, "comp_update": 3, "tick": 4}), StepPct: 92, SnapPct: 100},
+	"C03": {Name: "C03", MaxConns: 6, MaxSess: 3, Len: 120, W: withW(map[string]int{"join": 20, "disconnect": 5, "latency": 0, "ping_resp": 0, "receipt": 0, "action": 10, "asset": 8, "entity_add": 12, "pose": 7, "comp_update": 3, "tick": 4}), StepPct: 92, SnapPct: 100},
 	// the purge experiment: two groups of connections that mostly keep to sessions of their own group, more sessions, module traffic
 	"C03p": {Name: "C03p", MaxConns: 7, MaxSess: 5, Len: 130, Groups: 2, W: withW(map[string]int{"join": 16, "disconnect": 4, "latency": 0, "ping_resp": 0, "receipt": 0, "action": 8, "asset": 8, "entity_add": 12, "pose": 6, "comp_update": 4, "tick": 6, "dagaz": 14, "custom": 7}), StepPct: 90, SnapPct: 0},
 	"C04": {Name: "C04", MaxConns: 5, MaxSess: 3, Len: 100, W: withW(map[string]int{"latency": 6, "ping_resp": 18, "tick": 3, "pose": 3, "comp_update": 3, "custom": 2, "receipt": 3, "dagaz": 3, "ping": 2}), StepPct: 90, SnapPct: 45},
